@@ -1153,7 +1153,7 @@ def parse_http_date(date_str: str | None) -> datetime.datetime | None:
     if date_str is not None:
         timetuple = parsedate(date_str)
         if timetuple is not None:
-            with suppress(ValueError):
+            with suppress(ValueError, OverflowError):
                 return datetime.datetime(*timetuple[:6], tzinfo=datetime.timezone.utc)
     return None
 
